@@ -77,6 +77,50 @@ def check_candidate_names_agree(model: RepoModel, rep, RID: str):
         rep.holds(RID, key, ta.rel, tag.node.lineno, f"unconditional names of the acceptance {sorted(x for x, u in a_.items() if u)} are unconditional in the tag computation")
 
 
+def check_stateless_callee_fallback(model: RepoModel, rep, RID: str):
+    """An unresolved function (`sink`, `sourc`) gets a state for its callee symbol at its FIRST call in a method only; at every later call
+    the lookup of the callee's states is empty.  The tag computation falls back to the name in the statement in that case; the
+    matchers that decide whether the call is a source / a sink at all have to fall back the same way, otherwise only the first call of
+    each configured function per method is ever matched."""
+    ta = model.module("taint/taint_analysis.py")
+    ap = ta.classes.get("TaintRuleApplier")
+    getter = "get_stmt_used_symbol_and_state_by_pos"
+    for fname in ("should_apply_call_stmt_sink_rules", "apply_call_stmt_source_rules"):
+        f = ap.methods.get(fname) if ap else None
+        if f is None:
+            raise AnalysisError(f"TaintRuleApplier.{fname} vanished")
+        states_var = None
+        for a in walk_no_nested(f.node):
+            if isinstance(a, ast.Assign) and isinstance(a.value, ast.Call) and (call_name(a.value) or "").endswith(getter) and isinstance(a.targets[0], ast.Tuple) \
+                    and len(a.targets[0].elts) == 2 and isinstance(a.targets[0].elts[1], ast.Name):
+                states_var = a.targets[0].elts[1].id
+        key = f"{ta.rel}::TaintRuleApplier.{fname}::a call whose callee has no state is matched by its name"
+        if states_var is None:
+            rep.unknown(RID, key, ta.rel, f.node.lineno, "callee state lookup not recognised")
+            continue
+        cfg = cfg_of(f.node)
+        ok = False
+        for n in cfg.g.nodes:
+            conds = cfg.conditions_at(n)
+            if not any(isinstance(a, ast.Name) and a.id == states_var and not t for a, t in conds):
+                continue
+            # under "no states": a comparison of the rule's name with a name that leads to acceptance
+            for e in cfg.exprs_at(n):
+                for x in ast.walk(e):
+                    if isinstance(x, ast.Compare) and isinstance(x.ops[0], ast.Eq) and any(isinstance(s_, ast.Attribute) and s_.attr == "name" for s_ in [x.left] + x.comparators):
+                        ok = True
+            for a, t in conds:
+                if t and isinstance(a, ast.Compare) and isinstance(a.ops[0], ast.Eq) and any(isinstance(s_, ast.Attribute) and s_.attr == "name" for s_ in [a.left] + a.comparators):
+                    ok = True
+        if ok:
+            rep.holds(RID, key, ta.rel, f.node.lineno, f"under `not {states_var}` the rule's name is compared with the name in the statement")
+        else:
+            rep.violation(RID, key, ta.rel, f.node.lineno,
+                          f"{fname} matches a rule only through the states of the callee symbol (`{states_var}`); a later call of the same unresolved function in a "
+                          f"method has none, so only the FIRST call of each configured function per method is matched: `sink(0); sink(a)` reports no flow "
+                          f"although get_sink_tag_by_rules would tag the second call by its name")
+
+
 def check_use_positions(model: RepoModel, rep, RID: str):
     ps = model.module("core/prelim_semantics.py")
     # every producer numbers a use by its index in the WHOLE used-symbols list of the statement (that is the position the rules' \%argN
@@ -378,6 +422,7 @@ def run(model: RepoModel, rep, tier: str):
 
     check_use_positions(model, rep, "C10.R4")
     check_candidate_names_agree(model, rep, "C10.R4")
+    check_stateless_callee_fallback(model, rep, "C10.R4")
     # ------------------------------------------------------------------ R5
     enq = pf.methods.get("_enqueue")
     for fn in ("_propagate_from_symbol", "_propagate_from_state", "_propagate_from_stmt"):
